@@ -3,14 +3,16 @@
     [HInvZ st]: the table is a well-formed ZBDD table with both terminals
     ([ZbddOK], which includes: every handle slot refers to a stored node or
     terminal), the tautology chain of the manager is complete ([ZChainOK]),
-    and the apply cache serves only correct entries for all operator codes
-    ([ZCacheOKB]).
+    the apply cache - as the algorithms of a manager with the current number
+    of levels see it ([zcgetN], Mgr/HistoryZ.v: Restrict entries are keyed by the
+    number of levels) - serves only correct entries for all operator codes
+    ([ZCacheOKB]), and no Restrict entry is keyed with a number of levels the
+    manager has not reached yet ([znofuture]; entries of smaller numbers of
+    levels may linger after [add_vars]: they are never looked up again).
 
     [hstep_z_ok]: for every state satisfying [HInvZ], every configuration
     (operand order [gt], any [zlossy] cache with any content that satisfies the
-    cache invariant, any reaction [cav] of the cache to [add_vars] that drops
-    at least the Restrict entries) and every well-formed request ([zhop_pre]),
-    the call
+    cache invariant) and every well-formed request ([zhop_pre]), the call
     - runs to completion ([hstep_z] is not [None]),
     - re-establishes [HInvZ],
     - [hframe_z]: changes no slot other than its destination; every edge held
@@ -30,7 +32,7 @@ From OxiVerif Require Import DD.Table DD.TableExtra DD.TableProofs DD.Sem DD.Bui
   DD.ZbddRestrictProofs DD.ZbddRestrictTop DD.ZbddCubeCanon
   DD.ConfigInsert DD.ConfigRun DD.ConfigZbddRun DD.ConfigZbddIndep
   Mgr.SortOrder Mgr.SortOrderProofs Mgr.LevelSwap Mgr.LevelSwapOrder Mgr.LevelSwapZ
-  Mgr.History Mgr.HistoryBase Mgr.HistoryZ Mgr.HistoryZBase.
+  Mgr.History Mgr.HistoryBase Mgr.HistoryZ Mgr.HistoryZBase Mgr.HistoryZCache.
 Import ListNotations.
 
 Local Arguments hset : simpl never.
@@ -54,6 +56,8 @@ Local Arguments zmake_node : simpl never.
 Local Arguments zadd_vars : simpl never.
 Local Arguments set_var_order_model_z : simpl never.
 Local Arguments gc_model : simpl never.
+Local Arguments zcgetN : simpl never.
+Local Arguments zcaddN : simpl never.
 
 Lemma fam_of_set_handles : forall s hs r, fam_of (set_handles s hs) r = fam_of s r.
 Proof.
@@ -78,22 +82,23 @@ Variable cadd : C -> N -> list ref -> list nat -> ref -> C.
 Hypothesis Hlossy : zlossy C cget cadd.
 Variable cempty : C.
 Hypothesis Hempty : forall k a m, cget cempty k a m = None.
-Variable cav : C -> C.
-(** what [add_vars] does to the apply cache: nothing new is served, and no Restrict entry *)
-Definition cav_ok : Prop :=
-  forall c k a m r, cget (cav c) k a m = Some r -> cget c k a m = Some r /\ k <> zcode_restrict.
-Hypothesis Hcav : cav_ok.
 
 Notation hstate_z := (hstate_z C).
-Notation hstep_z := (hstep_z gt C cget cadd cempty cav).
-Notation hrun_z := (hrun_z gt C cget cadd cempty cav).
+Notation hstep_z := (hstep_z gt C cget cadd cempty).
+Notation hrun_z := (hrun_z gt C cget cadd cempty).
 Notation mkHZ := (mkHZ C).
-Notation ZOKB := (ZCacheOKB C cget).
+(** the cache as a manager with [n] levels accesses it *)
+Notation cgN n := (zcgetN C cget n).
+Notation caN n := (zcaddN C cadd n).
+Notation LN n := (zlossyN C cget cadd Hlossy n).
+Notation ZOKB n := (ZCacheOKB C (zcgetN C cget n)).
+Notation NOFUT n := (znofuture C cget n).
 
 Record HInvZ (st : hstate_z) : Prop := mkHInvZ {
   hzi_ok : ZbddOK (hz_s C st);
   hzi_chain : ZChainOK (hz_s C st);
-  hzi_cache : ZOKB (hz_s C st) (hz_c C st)
+  hzi_cache : ZOKB (nlevels (hz_s C st)) (hz_s C st) (hz_c C st);
+  hzi_future : NOFUT (nlevels (hz_s C st)) (hz_c C st)
 }.
 
 (** everything a client still holds: the edges in the slots *)
@@ -113,8 +118,11 @@ Qed.
 Lemma zslot_ok : forall st k r, HInvZ st -> zslot C st k = Some r -> ref_ok (hz_s C st) r.
 Proof. intros st k r I E. apply (zroot_ok st r I). apply (zslot_root st k r E). Qed.
 
-Lemma zokb_empty : forall s, ZOKB s cempty.
-Proof. intros s code args nums r E. rewrite Hempty in E. discriminate. Qed.
+Lemma zokb_empty : forall n s, ZOKB n s cempty.
+Proof. intros n s code args nums r E. unfold zcgetN in E. rewrite Hempty in E. discriminate. Qed.
+
+Lemma nofut_empty : forall n, NOFUT n cempty.
+Proof. intros n a m n' r E. rewrite Hempty in E. discriminate. Qed.
 
 (** ** Well-formed requests *)
 
@@ -220,13 +228,15 @@ Definition hpost_z (st : hstate_z) (o : zhop) (st' : hstate_z) : Prop :=
 (** ** Storing the result of an algorithm *)
 
 Lemma hinvz_put : forall st s' c' d r, HInvZ st ->
-  ZbddOK s' -> ZChainOK s' -> ZOKB s' c' -> ref_ok s' r ->
+  ZbddOK s' -> ZChainOK s' -> ZOKB (nlevels s') s' c' -> NOFUT (nlevels s') c' -> ref_ok s' r ->
   HInvZ (mkHZ (put s' d r) c').
 Proof.
-  intros st s' c' d r I B' Hc' Q' Or. constructor; simpl.
+  intros st s' c' d r I B' Hc' Q' N' Or. constructor; simpl.
   - apply zbddok_put; assumption.
   - apply zchain_set_handles. exact Hc'.
-  - apply zcacheokb_set_handles. exact Q'.
+  - unfold put. change (nlevels (set_handles s' (hset (s_handles s') d (E r)))) with (nlevels s').
+    apply zcacheokb_set_handles. exact Q'.
+  - exact N'.
 Qed.
 
 Lemma framez_put : forall st o s' c' d r, HInvZ st -> zhdst o = Some d -> zchanges_order o = false ->
@@ -268,14 +278,16 @@ Qed.
 
 (** the common part of all calls that run an algorithm and store its result *)
 Lemma zfinish_ok : forall st o d s' c' r, HInvZ st -> zhdst o = Some d -> zchanges_order o = false ->
-  ZbddOK s' -> extends (hz_s C st) s' -> ZOKB s' c' -> ref_ok s' r ->
+  ZbddOK s' -> extends (hz_s C st) s' -> ZOKB (nlevels (hz_s C st)) s' c' ->
+  NOFUT (nlevels (hz_s C st)) c' -> ref_ok s' r ->
   let st' := mkHZ (put s' d r) c' in
   HInvZ st' /\ hframe_z st o st' /\
   (forall F, (forall a, zbfun_of s' r a = F a) -> zholds st' d F) /\
   (forall R Fm, fam_of s' r = Some R -> feq R Fm -> zholds_fam st' d Fm).
 Proof.
-  intros st o d s' c' r I Hd Hco B' X Q' Or. simpl.
+  intros st o d s' c' r I Hd Hco B' X Q' N' Or. simpl.
   pose proof (zchain_extends _ s' (hzi_ok st I) B' X (hzi_chain st I)) as Hc'.
+  rewrite <- (ext_nlevels _ _ X) in Q', N'.
   split; [apply (hinvz_put st); assumption|].
   split; [apply framez_put; assumption|].
   split; [intros F HF; apply zholds_put; exact HF|].
@@ -288,78 +300,86 @@ Theorem hstep_z_ok : forall st o, HInvZ st -> zhop_pre st o ->
   exists st', hstep_z st o = Some st' /\ HInvZ st' /\ hframe_z st o st' /\ hpost_z st o st'.
 Proof.
   intros st o I Pre. pose proof (hzi_ok st I) as B. pose proof (hzi_chain st I) as Hc.
-  pose proof (hzi_cache st I) as Q. pose proof (zo_wf _ B) as H. pose proof (zo_kind _ B) as Hk.
+  pose proof (hzi_cache st I) as Q. pose proof (hzi_future st I) as NF.
+  pose proof (zo_wf _ B) as H. pose proof (zo_kind _ B) as Hk.
   assert (Hlen : length (s_v2l (hz_s C st)) = nlevels (hz_s C st)) by (apply (wf_perm_len _ H)).
+  set (n := nlevels (hz_s C st)) in *.
+  pose proof (znofuture_add C cget cadd Hlossy n) as NFadd.
   destruct o as [d b|d v neg|d x|op d x y|d x y z|d x cube|d|d|d v|op d x v|op d x y|d var hi lo
-                 |d x|x| |k|order]; simpl in Pre; simpl hstep_z.
+                 |d x|x| |k|order]; simpl in Pre; simpl hstep_z; fold n.
   - (* ZHConst *)
     destruct (zconst_bfun _ b B Hc) as [r [E [Or S]]]. rewrite E.
-    destruct (zfinish_ok st (ZHConst d b) d _ (hz_c C st) r I eq_refl eq_refl B (extends_refl _) Q Or)
+    destruct (zfinish_ok st (ZHConst d b) d _ (hz_c C st) r I eq_refl eq_refl B (extends_refl _) Q NF Or)
       as [I' [F' [P' _]]].
     eexists. split; [reflexivity|]. split; [exact I'|]. split; [exact F'|]. simpl. apply P'. exact S.
   - (* ZHVar *)
     destruct neg.
-    + destruct (znot_var_bfun gt C cget cadd Hlossy _ (hz_c C st) v B Hc Q Pre)
+    + destruct (znot_var_bfun gt C (cgN n) (caN n) (LN n) _ (hz_c C st) v B Hc Q Pre)
         as (s' & c' & r & E & (B' & _ & X & Q' & Or) & S).
-      rewrite E. simpl zfinish.
-      destruct (zfinish_ok st (ZHVar d v true) d s' c' r I eq_refl eq_refl B' X Q' Or) as [I' [F' [P' _]]].
+      fold n in E. rewrite E. simpl zfinish.
+      pose proof (znot_var_pres gt C (cgN n) (caN n) (NOFUT n) NFadd _ _ _ _ _ _ _ E NF) as NF'.
+      destruct (zfinish_ok st (ZHVar d v true) d s' c' r I eq_refl eq_refl B' X Q' NF' Or) as [I' [F' [P' _]]].
       eexists. split; [reflexivity|]. split; [exact I'|]. split; [exact F'|]. simpl. apply P'.
       intros a. rewrite S. reflexivity.
     + destruct (zvar_bfun _ v B Hc Pre) as (s' & r & E & B' & _ & X & Or & S).
       rewrite E. simpl zfinish0.
       destruct (zfinish_ok st (ZHVar d v false) d s' (hz_c C st) r I eq_refl eq_refl B' X
-                  (zcacheokb_extends C cget _ s' _ B X Q) Or) as [I' [F' [P' _]]].
+                  (zcacheokb_extends C (cgN n) _ s' _ B X Q) NF Or) as [I' [F' [P' _]]].
       eexists. split; [reflexivity|]. split; [exact I'|]. split; [exact F'|]. simpl. apply P'.
       intros a. rewrite S. destruct (var_s v a); reflexivity.
   - (* ZHNot *)
     destruct Pre as [f Ef]. rewrite Ef. pose proof (zslot_ok st x f I Ef) as Of.
-    destruct (zapply_not_bfun gt C cget cadd Hlossy _ (hz_c C st) f B Hc Q Of)
+    destruct (zapply_not_bfun gt C (cgN n) (caN n) (LN n) _ (hz_c C st) f B Hc Q Of)
       as (s' & c' & r & E & (B' & _ & X & Q' & Or) & S).
-    rewrite E. simpl zfinish.
-    destruct (zfinish_ok st (ZHNot d x) d s' c' r I eq_refl eq_refl B' X Q' Or) as [I' [F' [P' _]]].
+    fold n in E. rewrite E. simpl zfinish.
+    pose proof (zapply_not_pres gt C (cgN n) (caN n) (NOFUT n) NFadd _ _ _ _ _ _ _ E NF) as NF'.
+    destruct (zfinish_ok st (ZHNot d x) d s' c' r I eq_refl eq_refl B' X Q' NF' Or) as [I' [F' [P' _]]].
     eexists. split; [reflexivity|]. split; [exact I'|]. split; [exact F'|].
     simpl. exists f. split; [exact Ef|]. apply P'. exact S.
   - (* ZHBin *)
     destruct Pre as [[f Ef] [g Eg]]. rewrite Ef, Eg.
     pose proof (zslot_ok st x f I Ef) as Of. pose proof (zslot_ok st y g I Eg) as Og.
-    destruct (zapply_op_bfun gt C cget cadd Hlossy op _ (hz_c C st) f g B Hc Q Of Og)
+    destruct (zapply_op_bfun gt C (cgN n) (caN n) (LN n) op _ (hz_c C st) f g B Hc Q Of Og)
       as (s' & c' & r & E & (B' & _ & X & Q' & Or) & S).
-    rewrite E. simpl zfinish.
-    destruct (zfinish_ok st (ZHBin op d x y) d s' c' r I eq_refl eq_refl B' X Q' Or) as [I' [F' [P' _]]].
+    fold n in E. rewrite E. simpl zfinish.
+    pose proof (zapply_op_pres gt C (cgN n) (caN n) (NOFUT n) NFadd _ _ _ _ _ _ _ _ _ E NF) as NF'.
+    destruct (zfinish_ok st (ZHBin op d x y) d s' c' r I eq_refl eq_refl B' X Q' NF' Or) as [I' [F' [P' _]]].
     eexists. split; [reflexivity|]. split; [exact I'|]. split; [exact F'|].
     simpl. exists f, g. split; [exact Ef|]. split; [exact Eg|]. apply P'. exact S.
   - (* ZHIte *)
     destruct Pre as [[f Ef] [[g Eg] [h Eh]]]. rewrite Ef, Eg, Eh.
     pose proof (zslot_ok st x f I Ef) as Of. pose proof (zslot_ok st y g I Eg) as Og.
     pose proof (zslot_ok st z h I Eh) as Oh.
-    destruct (zapply_ite_bfun gt C cget cadd Hlossy _ (hz_c C st) f g h B Hc Q Of Og Oh)
+    destruct (zapply_ite_bfun gt C (cgN n) (caN n) (LN n) _ (hz_c C st) f g h B Hc Q Of Og Oh)
       as (s' & c' & r & E & (B' & _ & X & Q' & Or) & S).
-    rewrite E. simpl zfinish.
-    destruct (zfinish_ok st (ZHIte d x y z) d s' c' r I eq_refl eq_refl B' X Q' Or) as [I' [F' [P' _]]].
+    fold n in E. rewrite E. simpl zfinish.
+    pose proof (zapply_ite_pres gt C (cgN n) (caN n) (NOFUT n) NFadd _ _ _ _ _ _ _ _ _ E NF) as NF'.
+    destruct (zfinish_ok st (ZHIte d x y z) d s' c' r I eq_refl eq_refl B' X Q' NF' Or) as [I' [F' [P' _]]].
     eexists. split; [reflexivity|]. split; [exact I'|]. split; [exact F'|].
     simpl. exists f, g, h. split; [exact Ef|]. split; [exact Eg|]. split; [exact Eh|]. apply P'. exact S.
   - (* ZHRestrict *)
     destruct Pre as [[f Ef] [V [M [Ev Hcube]]]]. rewrite Ef, Ev.
     pose proof (zslot_ok st x f I Ef) as Of. pose proof (zslot_ok st cube V I Ev) as Ov.
-    destruct (zrestrict_edge_cube C cget cadd Hlossy _ _ (hz_c C st) f V M B Hc Q Of Hcube (le_n _))
+    destruct (zrestrict_edge_cube C (cgN n) (caN n) (LN n) _ _ (hz_c C st) f V M B Hc Q Of Hcube (le_n _))
       as (s' & c' & r & E & (B' & _ & X & Q' & Or) & _).
-    rewrite E. simpl zfinish.
-    destruct (zfinish_ok st (ZHRestrict d x cube) d s' c' r I eq_refl eq_refl B' X Q' Or) as [I' [F' [P' _]]].
+    fold n in E. rewrite E. simpl zfinish.
+    pose proof (zrestrict_edge_pres C (cgN n) (caN n) (NOFUT n) NFadd _ _ _ _ _ _ _ _ E NF) as NF'.
+    destruct (zfinish_ok st (ZHRestrict d x cube) d s' c' r I eq_refl eq_refl B' X Q' NF' Or) as [I' [F' [P' _]]].
     eexists. split; [reflexivity|]. split; [exact I'|]. split; [exact F'|].
     simpl. exists f, V. split; [exact Ef|]. split; [exact Ev|].
     intros lits Hnd Hrange Hlits. apply P'.
-    destruct (zrestrict_edge_is_cube C cget cadd Hlossy _ (hz_c C st) f V lits B Hc Q Of Ov Hnd Hrange Hlits)
+    destruct (zrestrict_edge_is_cube C (cgN n) (caN n) (LN n) _ (hz_c C st) f V lits B Hc Q Of Ov Hnd Hrange Hlits)
       as (s2 & c2 & r2 & E2 & _ & S & _).
-    rewrite E in E2. inversion E2; subst s2 c2 r2. exact S.
+    fold n in E2. rewrite E in E2. inversion E2; subst s2 c2 r2. exact S.
   - (* ZHEmpty *)
     destruct (zempty_sound _ B) as [r [E [Or EF]]]. rewrite E.
-    destruct (zfinish_ok st (ZHEmpty d) d _ (hz_c C st) r I eq_refl eq_refl B (extends_refl _) Q Or)
+    destruct (zfinish_ok st (ZHEmpty d) d _ (hz_c C st) r I eq_refl eq_refl B (extends_refl _) Q NF Or)
       as [I' [F' [_ P']]].
     eexists. split; [reflexivity|]. split; [exact I'|]. split; [exact F'|]. simpl.
     apply (P' _ _ EF). apply feq_refl.
   - (* ZHBase *)
     destruct (zbase_sound _ B) as [r [E [Or EF]]]. rewrite E.
-    destruct (zfinish_ok st (ZHBase d) d _ (hz_c C st) r I eq_refl eq_refl B (extends_refl _) Q Or)
+    destruct (zfinish_ok st (ZHBase d) d _ (hz_c C st) r I eq_refl eq_refl B (extends_refl _) Q NF Or)
       as [I' [F' [_ P']]].
     eexists. split; [reflexivity|]. split; [exact I'|]. split; [exact F'|]. simpl.
     apply (P' _ _ EF). apply feq_refl.
@@ -368,7 +388,7 @@ Proof.
       as (vl & s' & r & R & Ev & E & B' & X & Or & ER & Hq).
     rewrite E. simpl zfinish0.
     destruct (zfinish_ok st (ZHSingleton d v) d s' (hz_c C st) r I eq_refl eq_refl B' X
-                (zcacheokb_extends C cget _ s' _ B X Q) Or) as [I' [F' [_ P']]].
+                (zcacheokb_extends C (cgN n) _ s' _ B X Q) NF Or) as [I' [F' [_ P']]].
     eexists. split; [reflexivity|]. split; [exact I'|]. split; [exact F'|]. simpl.
     exists vl. split; [exact Ev|]. apply (P' R _ ER Hq).
   - (* ZHSub *)
@@ -376,11 +396,12 @@ Proof.
     destruct (fam_of_total _ H Hk f Of) as [F EF].
     destruct (nth_error (s_v2l (hz_s C st)) v) as [vl|] eqn:Ev; [|apply nth_error_None in Ev; lia].
     pose proof (rlevel_le _ H f) as Hrl.
-    destruct (zsubset_okB C cget cadd Hlossy op v vl (S (nlevels (hz_s C st))) _ (hz_c C st) f (pof F) B Q
-                (zden_of_fam _ f F Of EF) Ev ltac:(lia))
+    destruct (zsubset_okB C (cgN n) (caN n) (LN n) op v vl (S n) _ (hz_c C st) f (pof F) B Q
+                (zden_of_fam _ f F Of EF) Ev ltac:(unfold n; lia))
       as (s' & c' & r & E & B' & X & Q' & D).
     unfold zsubset_top. rewrite Ev, E. simpl zfinish.
-    destruct (zfinish_ok st (ZHSub op d x v) d s' c' r I eq_refl eq_refl B' X Q' (zden_ok _ _ _ D))
+    pose proof (zsubset_pres C (cgN n) (caN n) (NOFUT n) NFadd _ _ _ _ _ _ _ _ _ _ E NF) as NF'.
+    destruct (zfinish_ok st (ZHSub op d x v) d s' c' r I eq_refl eq_refl B' X Q' NF' (zden_ok _ _ _ D))
       as [I' [F' [_ P']]].
     eexists. split; [reflexivity|]. split; [exact I'|]. split; [exact F'|]. simpl.
     exists f, F, vl. split; [exact Ef|]. split; [exact EF|]. split; [exact Ev|].
@@ -391,11 +412,12 @@ Proof.
     pose proof (zslot_ok st x f I Ef) as Of. pose proof (zslot_ok st y g I Eg) as Og.
     destruct (fam_of_total _ H Hk f Of) as [F EF]. destruct (fam_of_total _ H Hk g Og) as [G EG].
     pose proof (rlevel_le _ H f) as Hrf. pose proof (rlevel_le _ H g) as Hrg.
-    destruct (zapply_okB gt C cget cadd Hlossy op (S (nlevels (hz_s C st))) _ (hz_c C st) f g (pof F) (pof G) B Q
-                (zden_of_fam _ f F Of EF) (zden_of_fam _ g G Og EG) ltac:(lia))
+    destruct (zapply_okB gt C (cgN n) (caN n) (LN n) op (S n) _ (hz_c C st) f g (pof F) (pof G) B Q
+                (zden_of_fam _ f F Of EF) (zden_of_fam _ g G Og EG) ltac:(unfold n; lia))
       as (s' & c' & r & E & B' & X & Q' & D).
     rewrite E. simpl zfinish.
-    destruct (zfinish_ok st (ZHSet op d x y) d s' c' r I eq_refl eq_refl B' X Q' (zden_ok _ _ _ D))
+    pose proof (zapply_pres gt C (cgN n) (caN n) (NOFUT n) NFadd _ _ _ _ _ _ _ _ _ E NF) as NF'.
+    destruct (zfinish_ok st (ZHSet op d x y) d s' c' r I eq_refl eq_refl B' X Q' NF' (zden_ok _ _ _ D))
       as [I' [F' [_ P']]].
     eexists. split; [reflexivity|]. split; [exact I'|]. split; [exact F'|]. simpl.
     exists f, g, F, G. split; [exact Ef|]. split; [exact Eg|]. split; [exact EF|]. split; [exact EG|].
@@ -409,12 +431,12 @@ Proof.
       as (s' & r & A & Bf & R & E & B' & X & Or & EA & EB & ER & HR).
     rewrite E. simpl zfinish0.
     destruct (zfinish_ok st (ZHMakeNode d var hi lo) d s' (hz_c C st) r I eq_refl eq_refl B' X
-                (zcacheokb_extends C cget _ s' _ B X Q) Or) as [I' [F' [_ P']]].
+                (zcacheokb_extends C (cgN n) _ s' _ B X Q) NF Or) as [I' [F' [_ P']]].
     eexists. split; [reflexivity|]. split; [exact I'|]. split; [exact F'|]. simpl.
     exists v, h, l, Fv, L, A, Bf. repeat (split; [assumption|]). apply (P' R _ ER HR).
   - (* ZHClone *)
     destruct Pre as [f Ef]. rewrite Ef. pose proof (zslot_ok st x f I Ef) as Of.
-    destruct (zfinish_ok st (ZHClone d x) d _ (hz_c C st) f I eq_refl eq_refl B (extends_refl _) Q Of)
+    destruct (zfinish_ok st (ZHClone d x) d _ (hz_c C st) f I eq_refl eq_refl B (extends_refl _) Q NF Of)
       as [I' [F' _]].
     eexists. split; [reflexivity|]. split; [exact I'|]. split; [exact F'|].
     simpl. unfold put. simpl. rewrite hget_hset_same.
@@ -428,7 +450,9 @@ Proof.
     + constructor; simpl.
       * apply zbddok_drop. exact B.
       * apply zchain_set_handles. exact Hc.
-      * apply zcacheokb_set_handles. exact Q.
+      * change (nlevels (set_handles (hz_s C st) (hdel (s_handles (hz_s C st)) x))) with n.
+        apply zcacheokb_set_handles. exact Q.
+      * exact NF.
     + split; [|split; [|split; [|split]]]; simpl.
       * intros y Hy. apply hget_hdel_other. congruence.
       * intros r Hr. split; [apply (zroot_ok st r I Hr)|]. intros a.
@@ -443,7 +467,7 @@ Proof.
     destruct (zgc_facts _ B Hc) as [Bg [Hcg [Xg [Hh Hlive]]]].
     set (sg := set_handles (gc_model (with_chain (hz_s C st))) (s_handles (hz_s C st))) in *.
     eexists. split; [reflexivity|]. split; [|split].
-    + constructor; simpl; [exact Bg | exact Hcg | apply zokb_empty].
+    + constructor; simpl; [exact Bg | exact Hcg | apply zokb_empty | apply nofut_empty].
     + split; [|split; [|split; [|split]]]; simpl.
       * intros x _. reflexivity.
       * intros r [h [Hin <-]]. pose proof (Hh h Hin) as Ok. split; [exact Ok|]. intros a.
@@ -463,12 +487,16 @@ Proof.
         -- right. destruct (zchain_roots_In _ h Hin) as (l & t & _ & Et & ->). exists l. exact Et.
       * destruct IH as [r [Hr Rr]]. exists r. split; [exact Hr|].
         apply (reach_child _ _ pid pnd e Rr Ep He).
-  - (* ZHAddVars *)
+  - (* ZHAddVars: the cache is kept; what the new view serves, the old view served *)
     destruct (zadd_vars_facts _ k B) as (s' & ch & E & B' & Hc' & G & Hn & Hv2l & Hl2v & Hh & Hold).
     rewrite E. eexists. split; [reflexivity|]. split; [|split].
-    + constructor; simpl; [exact B' | exact Hc' |].
-      apply (zcacheokb_grows C cget _ s' (hz_c C st) (cav (hz_c C st)) B G); [| apply Hcav | exact Q].
-      intros var vl Ev. rewrite Hv2l. rewrite nth_error_app1; [exact Ev|]. apply nth_error_Some. congruence.
+    + constructor; simpl; [exact B' | exact Hc' | |].
+      * apply (zcacheokb_grows C (cgN n) (cgN (nlevels s')) _ s' (hz_c C st) (hz_c C st) B G); [| | exact Q].
+        -- intros var vl Ev. rewrite Hv2l. rewrite nth_error_app1; [exact Ev|]. apply nth_error_Some. congruence.
+        -- intros k0 a m r E0.
+           destruct (zcgetN_later C cget n (nlevels s') _ k0 a m r NF ltac:(fold n in Hn; lia) E0) as [E1 E2].
+           split; [exact E1|]. intros Hk0. fold n. apply (E2 Hk0).
+      * apply (znofuture_mono C cget n); [fold n in Hn; lia | exact NF].
     + split; [|split; [|split; [|split]]]; simpl.
       * intros x _. rewrite Hh. reflexivity.
       * intros r Hr. pose proof (zroot_ok st r I Hr) as Ok. destruct (Hold r Ok) as [O' [_ Hb]].
@@ -486,26 +514,26 @@ Proof.
     destruct (Nat.leb (length order) 1) eqn:Elen.
     { exists st. split; [reflexivity|]. split; [exact I|]. split; [exact Hsame|]. simpl.
       split; [reflexivity|]. split; [reflexivity|]. intros a b Hab. apply Nat.leb_le in Elen. lia. }
-    assert (Eok : order_ok_b (nlevels (hz_s C st)) order = true)
+    assert (Eok : order_ok_b n order = true)
       by (apply order_ok_b_valid; split; assumption).
     rewrite Eok.
-    destruct (nat_list_eqb _ (seq 0 (nlevels (hz_s C st)))) eqn:Esorted.
+    destruct (nat_list_eqb _ (seq 0 n)) eqn:Esorted.
     { exists st. split; [reflexivity|]. split; [exact I|]. split; [exact Hsame|]. simpl.
       split; [reflexivity|]. split; [reflexivity|]. intros a b Hab. apply nat_list_eqb_eq in Esorted.
-      pose proof (sort_order_respects (nlevels (hz_s C st)) _
+      pose proof (sort_order_respects n _
                     (valid_order_levels (hz_s C st) order H Hnd Hr) a b) as R.
       rewrite map_length in R. specialize (R Hab). rewrite Esorted in R.
       rewrite Forall_forall in Hr.
-      assert (Hlv : forall k, k < length order ->
-                nth k (map (fun v => nth v (s_v2l (hz_s C st)) 0) order) 0 = nth (nth k order 0) (s_v2l (hz_s C st)) 0).
+      assert (Hlv : forall k0, k0 < length order ->
+                nth k0 (map (fun v => nth v (s_v2l (hz_s C st)) 0) order) 0 = nth (nth k0 order 0) (s_v2l (hz_s C st)) 0).
       { intros k0 Hk0. apply (nth_map_in _ _ (fun v => nth v (s_v2l (hz_s C st)) 0)). exact Hk0. }
       rewrite (Hlv a), (Hlv b) in R by lia.
-      assert (Hlt : forall k, k < length order -> nth (nth k order 0) (s_v2l (hz_s C st)) 0 < nlevels (hz_s C st)).
+      assert (Hlt : forall k0, k0 < length order -> nth (nth k0 order 0) (s_v2l (hz_s C st)) 0 < n).
       { intros k0 Hk0. apply (wf_v2l_l2v (hz_s C st) _ H). apply Hr. apply nth_In. exact Hk0. }
       rewrite !seq_nth in R by (apply Hlt; lia). exact R. }
     destruct (zreorder_facts _ order B Hc Hnd Hr) as [B2 [Hc2 [Hn2 [Hh2 [Hf2 Hresp]]]]].
     eexists. split; [reflexivity|]. split; [|split].
-    + constructor; simpl; [exact B2 | exact Hc2 | apply zokb_empty].
+    + constructor; simpl; [exact B2 | exact Hc2 | apply zokb_empty | apply nofut_empty].
     + split; [|split; [|split; [|split]]]; simpl.
       * intros x _. rewrite Hh2. reflexivity.
       * intros r [h [Hin <-]]. destruct (Hf2 h Hin) as [O2 F2]. split; [exact O2|]. intros a.
